@@ -1428,7 +1428,7 @@ run_family(vh::Rng& rng, bool thorough)
 {
   g_cache_dir = g_tmpdir + "/lmcache";
   ::mkdir(g_cache_dir.c_str(), 0777);
-  const int ncases = thorough ? 420 : 56;
+  const int ncases = thorough ? 1500 : 160;
   for (int ci = 0; ci < ncases; ++ci)
     {
       Geo g;
